@@ -92,14 +92,17 @@ fn get_offset_and_len<F: FnOnce() -> usize>(
     let start = start.unwrap_or(0);
     if start < 0 || stop.map_or(true, |x| x < 0) {
         let end = end();
+        // the length of a lazily repeated sequence is virtual and can exceed
+        // i64::MAX: count from the end in 128 bits
+        let from_end = |x: i64| (end as i128 + x as i128).max(0) as usize;
         let start = if start < 0 {
-            std::cmp::max(0, end as i64 + start) as usize
+            from_end(start)
         } else {
             start as usize
         };
         let stop = match stop {
             None => end,
-            Some(x) if x < 0 => std::cmp::max(0, end as i64 + x) as usize,
+            Some(x) if x < 0 => from_end(x),
             Some(x) => x as usize,
         };
         (start, stop.saturating_sub(start))
